@@ -101,7 +101,11 @@ def r2(tree, rep):
     g = build(cl)
     lc = g.call_nodes(lambda c: dotted(c.func) == "self._traffic.lost_connection")
     tt = [t for t in g.nodes(lambda s: isinstance(s, ast.If)) if isinstance(g.stmt[t].test, ast.Compare) and is_self_attr(g.stmt[t].test.left, "_traffic")]
-    ok = len(lc) == 1 and len(tt) == 1 and g.must_pass(lc, start=g.branch_targets(tt[0], 'T'), to=[g.exit, g.raise_exit], explicit_only=True) and g.must_pass(tt)
+    # (a leading `if self._connection is None: return` is accepted: whether a loss is ever swallowed is the two-party product's verdict)
+    from ..cfg import none_atom
+    n_e, guarded = g.when_must_pass(none_atom(lambda e: is_self_attr(e, "_connection")), False, tt)
+    ok = len(lc) == 1 and len(tt) == 1 and g.must_pass(lc, start=g.branch_targets(tt[0], 'T'), to=[g.exit, g.raise_exit], explicit_only=True) \
+        and (g.must_pass(tt) or (n_e > 0 and guarded))
     rep.check("C16.R2", "connector_connection_lost reports the loss to the timer whenever one exists", ok, site(cl, MGR), key="C16.R2:connection_lost:lost_connection")
     for name, kind in (("_stop_using_connection", "method"), ("abandon_connection", "output")):
         fn = tree.func(MGR, "Manager", name)
